@@ -160,6 +160,9 @@ func runSessions(lines []string, w *bufio.Writer) {
 		for _, o := range outs {
 			fmt.Fprintln(w, o)
 		}
+		// one session = one flush: should the real code take the whole process down (stack overflow, concurrent
+		// map writes, deadlock), the output file says exactly which session did it (check: exec_real)
+		w.Flush()
 		i = j
 	}
 }
